@@ -159,7 +159,17 @@ def insertSortedKV (x : Bytes × List Bytes) : Hdr → Hdr
   | [] => [x]
   | y :: ys => if compareOfLessAndEq x.1 y.1 != .gt then x :: y :: ys else y :: insertSortedKV x ys
 
+/-- Every maximal run of non-ASCII bytes becomes one `?` (JSON transport replaces invalid UTF-8 by
+    U+FFFD, so such bytes are not comparable one to one). -/
+def asciiFoldAux (inRun : Bool) : Bytes → Bytes
+  | [] => []
+  | c :: rest => if c ≥ 0x80 then (if inRun then asciiFoldAux true rest else 0x3F :: asciiFoldAux true rest)
+    else c :: asciiFoldAux false rest
+
+def asciiFold (b : Bytes) : Bytes := asciiFoldAux false b
+
 def renderHdr (h : Hdr) : String :=
+  let h : Hdr := h.map fun (k, vs) => (asciiFold k, vs.map asciiFold)
   let h := h.foldr insertSortedKV []
   if h.isEmpty then "-" else
   ";".intercalate (h.map fun (k, vs) =>
@@ -464,9 +474,13 @@ def branchOf (p : Parsed) : Branch :=
   | .ok o => if o.passThrough then .forwarded else .transcoded o
 
 /-- C11: no panic, at most one response head, at most one dispatch. -/
-def oracleC11 (fs : List (String × String)) : Option String :=
+def oracleC11 (p : Parsed) (fs : List (String × String)) : Option String :=
+  let forwarded := match branchOf p with
+    | .forwarded => true
+    | _ => false
   if fieldOf fs "panic" != "0" then some "ServeHTTP panicked"
-  else if (fieldOf fs "heads").toNat?.getD 99 > 1 then some "more than one response head"
+  -- (when the request is forwarded untouched the handler owns the client's writer: what it calls there is its own business)
+  else if !forwarded && (fieldOf fs "heads").toNat?.getD 99 > 1 then some "more than one response head"
   else if fieldOf fs "disp" == "MULTIPLE" then some "handler invoked more than once"
   else none
 
@@ -678,7 +692,14 @@ def oracleC01 (p : Parsed) (ex : Expect) (fs : List (String × String)) : Option
           let tag := if o.clientEnveloper.isNone && o.serverEnveloper.isSome && comp.isSome && hasPlainFrame
             then " [uncompressed-frame-to-unenveloped-peer]" else ""
           some ("client received response data that does not decode in its codec/compression" ++ tag)
-        | some vs => if vs == ex.respValues then none else some "client received different response messages than the backend sent"
+        | some vs => if vs == ex.respValues then none else
+          let writes := p.sc.script.foldl (fun acc op => match op with | .write b => acc ++ b | _ => acc) ([] : Bytes)
+          let hasPlainFrame := match splitFramesFuel (writes.length + 1) writes with
+            | some frames => frames.any fun f => f.1 == 0
+            | none => false
+          let tag := if o.clientEnveloper.isNone && o.serverEnveloper.isSome && comp.isSome && hasPlainFrame
+            then " [uncompressed-frame-to-unenveloped-peer]" else ""
+          some ("client received different response messages than the backend sent" ++ tag)
       | some c =>
         if ex.errCode == 0 && ex.sizesSafe then some s!"clean RPC with fitting sizes was failed (code {c})" else none
   | _ => none
@@ -1030,7 +1051,7 @@ def specE2E (prop : String) (hexJson : String) (res : List String) : String :=
     let fs := parseFields res
     let r : Option (Option String) :=
       match prop with
-      | "C11" => some (oracleC11 fs)
+      | "C11" => some (oracleC11 p fs)
       | "C18" => some (oracleC18 p fs)
       | "C03" => some (oracleC03 p fs)
       | "C13" => some (oracleC13 p res)
